@@ -389,6 +389,10 @@ class ManifestContext:
             base_url = flask.url_for(
                 'dash-media-base-url', mode=opts.mode, stream=stream.directory)
 
+        # the name of a stream directory is free text. url_for() leaves
+        # characters such as & and $ as they are; in a manifest they would
+        # start an entity reference or a SegmentTemplate identifier
+        base_url = urllib.parse.quote(base_url, safe="/%-._~")
         period.finish_setup(
             mode=opts.mode, timing=timing, base_url=base_url,
             use_base_urls=opts.useBaseUrls)
